@@ -22,7 +22,7 @@ KINDS = ["node", "child", "child", "set", "set", "set", "req", "req", "time", "c
 
 CHECK = HistoryCheck(
     "C07", {"sleep"}, RULE,
-    dict(versions=("2.0", "2.1", "2.2"), max_ops=35, min_ops=6, frame_kinds=KINDS, op_weights=dict(set=16, fw=5, near=4, raw=2)),
+    dict(versions=("2.0", "2.1", "2.2"), max_ops=35, min_ops=6, frame_kinds=KINDS, op_weights=dict(set=16, fw=5, near=4, raw=2, save=5)),
     nontrivial, quick=(16, 160), thorough=(16, 2500),
     assumptions=["'sleeping' is decided by the reference model: the node announced smart sleep at a moment when it had >= 1 child"],
 )
